@@ -278,6 +278,33 @@ func genField(r *rand.Rand, f reflect.Value, zeroOK bool) any {
 	panic(fmt.Sprintf("genField: unsupported type %v", f.Type()))
 }
 
+// shapeClass: the shape of projField's result for a field type (Trace_Codec!ShapeClass is the layout's side of it)
+func shapeClass(t reflect.Type) string {
+	switch t {
+	case rtU8, rtU16, rtVersion:
+		return "int"
+	case rtU32, rtSerial, rtPIN:
+		return "pair"
+	case rtBool:
+		return "bool"
+	case rtIP, rtMAC, rtHW:
+		return "bytes"
+	case rtAddrPort:
+		return "addrport"
+	case rtDate, rtDateP:
+		return "date"
+	case rtDateTime, rtDTP:
+		return "datetime"
+	case rtSysDate:
+		return "sysdate"
+	case rtSysTime:
+		return "systime"
+	case rtHHmm, rtHHmmP:
+		return "hhmm"
+	}
+	return "other:" + t.String()
+}
+
 // projField: abstract form of a (decoded) field value
 func projField(f reflect.Value) any {
 	switch f.Type() {
